@@ -2,7 +2,7 @@
    positional / keyword arguments to the parameters of a @lazy function, substitution of the
    argument texts for `$param` in the body, Hardcode.calc loop.  The result is the text that
    is handed to the function-content parser.  No proofs here. *)
-From Coq Require Import String List Bool Arith.
+From Coq Require Import String List Bool Arith Ascii.
 From JMCV Require Import Model.StrOps Model.Hardcode.
 Import ListNotations.
 
@@ -61,3 +61,117 @@ Definition lazy_subst (m : hmode) (body : string) (b : list (string * string)) :
 Definition lazy_text (m : hmode) (macros : list (string * string)) (body : string)
            (b : list (string * string)) : cres string :=
   calc_all macros (lazy_subst m body b).
+
+
+(* what handle_lazy binds to the parameters, written directly: the keyword argument of that name if the
+   call has one, else the positional argument at the parameter's index *)
+Fixpoint expected_bind (i : nat) (params pos : list string) (kw : list (string * string))
+  : list (string * string) :=
+  match params with
+  | [] => []
+  | p :: ps =>
+      (p, match kw_get p kw with Some v => v | None => nth i pos EmptyString end)
+        :: expected_bind (S i) ps pos kw
+  end.
+
+(* ------------------------------------------------------------------ argument -> text
+   (strengthening round 1)  What is bound to a parameter is not the argument's source text but
+   `Tokenizer.merge_tokens(tokens, use_full_string=True).string` of the argument's tokens
+   (tokenizer.py: merge_tokens / Token.get_full_string):
+     - a STRING token gives `repr(token.string)`: the content written again as a Python literal (the
+       function-content tokenizer reads string literals back with ast.literal_eval); a back-tick
+       (multi-line) string is written between "`\n" and "\n`";
+     - a bracket token gives clean_up_paren_token(token) — OUTSIDE the model, the cleaned text is an input;
+     - an arrow function `(params)=>{body}` reaches handle_lazy folded into ONE token holding the body: its
+       head is written again in front (HRepaired = fixes/C19-lazy-keyword-arrow-function.patch: for
+       positional AND keyword arguments, with the parameter list as written; HPinned: `()=>` for a
+       positional argument only, nothing for a keyword argument);
+     - any other token gives its text; the texts are concatenated without separator. *)
+Inductive atok :=
+| AStr (backtick : bool) (s : string)        (* string literal: decoded content *)
+| AParen (cleaned : string)
+| AFunc (params body : string)               (* "(i)" and "{ ... }" *)
+| AOther (s : string).
+
+(* repr(str) of CPython on the characters 9, 10, 13 and 32..126 (the harness excludes anything else):
+   single quotes unless the text contains a single and no double quote; backslash, the chosen quote,
+   newline, tab and carriage return are escaped. *)
+Definition SQ : ascii := "'"%char.
+Definition DQ : ascii := """"%char.
+Definition BS : ascii := "\"%char.
+Definition repr_quote (s : string) : ascii :=
+  if contains_char SQ s && negb (contains_char DQ s) then DQ else SQ.
+Fixpoint repr_body (q : ascii) (s : string) : string :=
+  match s with
+  | EmptyString => EmptyString
+  | String c r =>
+      let rest := repr_body q r in
+      if Ascii.eqb c BS then String BS (String BS rest)
+      else if Ascii.eqb c q then String BS (String q rest)
+      else if Ascii.eqb c "010"%char then String BS (String "n"%char rest)
+      else if Ascii.eqb c "009"%char then String BS (String "t"%char rest)
+      else if Ascii.eqb c "013"%char then String BS (String "r"%char rest)
+      else String c rest
+  end.
+Definition py_repr (s : string) : string :=
+  let q := repr_quote s in String q (repr_body q s ++ String q EmptyString).
+
+Definition NL : string := String "010"%char EmptyString.
+Definition tok_text (full : bool) (t : atok) : string :=
+  match t with
+  | AStr bt s =>
+      if full then
+        if bt then ("`" ++ NL ++ repr_body (repr_quote s) s ++ NL ++ "`")%string else py_repr s
+      else s
+  | AParen c => c
+  | AFunc _ body => body
+  | AOther s => s
+  end.
+Definition arrow_head (m : hmode) (is_kw : bool) (toks : list atok) : string :=
+  match toks with
+  | AFunc ps _ :: _ =>
+      match m with
+      | HRepaired => (ps ++ "=>")%string
+      | HPinned => if is_kw then EmptyString else "()=>"%string
+      end
+  | _ => EmptyString
+  end.
+(* `full` is use_full_string: True at both call sites of handle_lazy *)
+Definition arg_text_gen (full : bool) (m : hmode) (is_kw : bool) (toks : list atok) : string :=
+  (arrow_head m is_kw toks ++ String.concat EmptyString (map (tok_text full) toks))%string.
+Definition arg_text := arg_text_gen true.
+
+(* the call as handle_lazy sees it: token lists; binding, then text *)
+Definition bind_toks (m : hmode) (params : list string) (pos : list (list atok))
+           (kw : list (string * list atok)) : bres :=
+  bind params (map (arg_text m false) pos) (map (fun kv => (fst kv, arg_text m true (snd kv))) kw).
+
+(* reading a Python string literal back (ast.literal_eval on the escapes repr produces):
+   None = not a literal of that form *)
+Fixpoint unquote_body (q : ascii) (s : string) : option string :=
+  match s with
+  | EmptyString => None                                   (* closing quote missing *)
+  | String c r =>
+      if Ascii.eqb c q then match r with EmptyString => Some EmptyString | _ => None end
+      else if Ascii.eqb c "010"%char then None            (* a raw line break ends the literal: SyntaxError *)
+      else if Ascii.eqb c BS then
+        match r with
+        | EmptyString => None
+        | String e r' =>
+            let dec := if Ascii.eqb e "n"%char then Some "010"%char
+                       else if Ascii.eqb e "t"%char then Some "009"%char
+                       else if Ascii.eqb e "r"%char then Some "013"%char
+                       else if Ascii.eqb e BS || Ascii.eqb e SQ || Ascii.eqb e DQ then Some e
+                       else None in
+            match dec, unquote_body q r' with
+            | Some d, Some t => Some (String d t)
+            | _, _ => None
+            end
+        end
+      else match unquote_body q r with Some t => Some (String c t) | None => None end
+  end.
+Definition py_unquote (s : string) : option string :=
+  match s with
+  | String q r => if Ascii.eqb q SQ || Ascii.eqb q DQ then unquote_body q r else None
+  | EmptyString => None
+  end.
